@@ -109,3 +109,13 @@ check('C03',
       '24 strings that fail at every stage of parsing or succeed are run on ONE parser instance and every string must then behave as on a fresh parser.',
       'which error code is raised is not judged; the watchdog is 20 s per case',
       'DESIGN.md section 3 C03')
+check('C04',
+      'bounded-exhaustive enumeration of operator chains against a recursive-descent transcription of the W3C EBNF; hash-seed configurations in subprocesses',
+      'For each of the four parsers: every ordered pair (thorough: triple) of operator items - all binary operators of the version, the four type '
+      'operators with their fixed right operand, =>, and a prefix minus on each operand position - is parsed flat and in the fully parenthesised '
+      'form the EBNF transcription prescribes; the token trees must be identical and evaluate alike under two contexts, and a chain the EBNF does '
+      'not derive must at least fail cleanly. Every single-gap substitution of whitespace / newline / (: comment :) / nested comment and every '
+      'uniform filler leaves the tree unchanged. parse(tok.source) reproduces tree and value. The whole pair table (all versions) is recomputed '
+      'in subprocesses under PYTHONHASHSEED 0-3 and VERIF_SEED (thorough: 0-31) and the digests must agree.',
+      'reference mc/models/xpgrammar.py; chains where * or + directly follows a sequence type are skipped (occurrence-indicator ambiguity rule)',
+      'DESIGN.md section 3 C04')
